@@ -243,35 +243,35 @@ T_FOLD = T + "; inductive invariant of the streaming fold machines (TauFold) dis
 MANIFEST_TEXT = {
  "C01": {"level": "Trace validation of the life-cycle machine (spec/TauRule.tla): for seeded random rules (depth 3, up to 4 identifiers, lists, nested blocks, casts, quantifiers) every one of the 17 switch states is a separate object of one case whose denotation is bound by the first observation; TLC rejects any later verdict that differs and any optimise() that panics. Documents are generated in three modes (negation-free rules; documents on which every predicate is definite; unrestricted) so that most comparisons are strict; comparisons on indefinite documents under a negation are attributed to the recorded known findings about operand reordering. A fifth of the cases also call optimise() a second time with other switches (spec action ReOptimise: the identity). The optimiser IS transcribed pass by pass (spec/TauOpt.tla): TLC checks NoPanic / DenStable / EngInLang on a bounded universe (MC_Opt) and the transcription's prediction is compared with every recorded observation (model_drift, zero so far); it is never the judge, only the explanation of known findings. Random exploration beyond the MC_Opt universe, not exhaustive.",
          "note": COMMON_NOTE + "Needs no oracle (self-consistency); the language-layer oracle is evaluated as well but not counted here.", "technique": T},
- "C02": {"level": "The language layer spec/TauLang.tla (mapping = conjunction in written order, sequence = disjunction, pattern kinds, numbers, casts, quantifiers, nested mappings, three-valued condition) is evaluated by TLC on every recorded (rule, document) pair: the engine's verdict and three-valued result must lie in the admissible set. Seeded random rules and rule-directed documents (1.5k quick / 30k thorough cases); results the documentation leaves open are admissible sets, not guesses.",
+ "C02": {"level": "The language layer spec/TauLang.tla (mapping = conjunction in written order, sequence = disjunction, pattern kinds, numbers, casts, quantifiers, nested mappings, three-valued condition) is evaluated by TLC on every recorded (rule, document) pair: the engine's verdict and three-valued result must lie in the admissible set. Seeded random rules and rule-directed documents (1.5k quick / 30k thorough cases); results the documentation leaves open are admissible sets, not guesses. Which rules are VALID is specified too: spec/TauType.tla (the static semantics of identifier bodies: key modifier x value kind, lists, nesting) decides the load outcome of every rule of an exhaustive small universe (MC_Type: 854 / 7,854 rules, with TLC-checked laws) and of 400 / 8k random well- and ill-typed bodies.",
          "note": COMMON_NOTE + "Oracle is sound only inside the rule shapes the generators produce (well typed by construction); float text beyond 15 significant digits and non-decimal numeric strings are left open.", "technique": T},
- "C03": {"level": "TLC enumerates every condition over identifiers, and/or/not, parentheses, all()/of(), casts, numbers and comparison operators up to 3 (thorough 4) alphabet elements, checks the Pratt model against the reference grammar (operands of and/or/not are predicates, identifiers exist), and each string is loaded for real: what the grammar rejects must be rejected, and every accepted rule is optimised under 6 (thorough 17) switch states, matched against adversarial documents (every value kind incl. 64-bit extremes, NaN, empty and mixed containers) and validated - any panic is a violation. Plus seeded random rules with non-mapping examples.",
+ "C03": {"level": "TLC enumerates every condition over identifiers, and/or/not, parentheses, all()/of(), casts, numbers and comparison operators up to 3 (thorough 4) alphabet elements, checks the Pratt model against the reference grammar (operands of and/or/not are predicates, identifiers exist), and each string is loaded for real: what the grammar rejects must be rejected, and every accepted rule is optimised under 6 (thorough 17) switch states, matched against adversarial documents (every value kind incl. 64-bit extremes, NaN, empty and mixed containers) and validated - any panic is a violation. Plus seeded random rules with non-mapping examples, rules at the sizes where indices and bitmaps change representation (129-136 matrix columns, 63-70 list members), well- and ill-typed bodies (what TauType says loads must load and is then evaluated on values of every kind), and random condition texts whose load outcome the grammar model decides.",
          "note": COMMON_NOTE + "Panics are observed with catch_unwind in a release build with overflow checks and debug assertions on.", "technique": T},
- "C04": {"level": "Model: the condition scanner as a TLA+ step machine over all strings of length <= 3 (thorough 4) over 28 character classes (progress, position in range, termination under weak fairness, agreement with the recursive definition); the pattern-text cascade over all strings <= 3 (thorough 4) over the 13 characters with a syntactic role (no slice out of range, write/read law). Conformance: every enumerated pattern string and 3k (thorough 60k) fuzz cases (token soups, pattern soups, YAML shapes in every position, mutated repository rule files, nesting to depth 64) are loaded through from_str, from_value and the core entry points; outcome must be ok or err, and for modelled inputs the outcome/kind/argument the specification predicts.",
+ "C04": {"level": "Model: the condition scanner as a TLA+ step machine over all strings of length <= 3 (thorough 4) over 28 character classes (progress, position in range, termination under weak fairness, agreement with the recursive definition); the pattern-text cascade over all strings <= 3 (thorough 4) over the 13 characters with a syntactic role (no slice out of range, write/read law). Conformance: every enumerated pattern string and 3k (thorough 60k) fuzz cases (token soups, pattern soups, YAML shapes in every position, mutated repository rule files, nesting to depth 64, numerals at the 64-bit and f64 boundaries, comparisons exactly at the ends of the i64 range, regexes with large compiled programs alone and in lists, non-ASCII numerics after ASCII digits, NaN and infinity constants) are loaded through from_str, from_value and the core entry points under a watchdog; outcome must be ok or err - never a panic, never a call that does not return - and for modelled inputs the outcome/kind/argument the specification predicts.",
          "note": COMMON_NOTE + "Says nothing about serde_yaml's own parser beyond not panicking on the fuzzed inputs; stack exhaustion beyond depth 64 is out of scope.", "technique": T},
- "C05": {"level": "Exhaustive within the bound: every token string of length <= 5 (thorough 6: 299,593 strings) over {A,B,C,and,or,not,(,)} is parsed by the TLA+ Pratt model and by the reference grammar (TLC checks they agree and that text rendering tokenises back); every accepted string and every short rejected one is loaded for real and matched under all {T,F,M} assignments of its identifiers; load outcome and every verdict must be what the reference parse yields.",
-         "note": COMMON_NOTE + "Spacing variants and keyword-like identifier names are covered by the C04 condition fuzz (load outcome decided by the grammar) rather than exhaustively.", "technique": T},
+ "C05": {"level": "Exhaustive within the bound: every token string of length <= 5 (thorough 6: 299,593 strings) over {A,B,C,and,or,not,(,)} is parsed by the TLA+ Pratt model and by the reference grammar (TLC checks they agree and that text rendering tokenises back); every accepted string and every rejected one of up to 4 (5) tokens is loaded for real and matched under all {T,F,M} assignments of its identifiers; load outcome and every verdict must be what the reference parse yields.",
+         "note": COMMON_NOTE + "Beyond the exhaustive bound: random condition trees (cast comparisons with parenthesised operands, identifier names in which keyword letters are followed by _ . # [ ]) re-spaced and re-parenthesised, read back by the reference grammar; random token soups whose load outcome the grammar model decides.", "technique": T},
  "C06": {"level": "Exhaustive within the bound: TLC enumerates every connective form (binary chains, mapping/sequence groups, not, all()/of() over identifiers, plain/all()/of()/not() key lists, batched and mixed) x arity 1..3 (thorough 1..5) x every {T,F,M} vector x every threshold, checks the solver-loop model against the truth tables and their set-lifted forms, and each case is replayed through Rule::matches (three-valued result observed via the rule and its negation; also optimised) and validated by TLC against the language layer. The non-true values of all()/of() are pinned by the same rules as and/or (DESIGN 4.1). Unbounded part (thorough tier): the group loops as streaming machines (spec/TauFold.tla) satisfy 'loop value = closed form of the table on the operands so far' as an inductive invariant discharged by Apalache for every arity and threshold; MC_Fold (TLC) ties the streaming machines to the recursive folds that the replay binds to solver.rs.",
          "note": COMMON_NOTE + "Three-valued results are observed through the engine's own `not`, itself one of the enumerated forms.", "technique": T_FOLD},
  "C07": {"level": "Exhaustive within the bound: alphabet {a,b,A}, needles <= 2, haystacks <= 3 (thorough 4), kinds exact/prefix/suffix/contains/any and 11 regex shapes, with and without the i flag; all singles and all ordered pairs with needles <= 1: TLC checks the hit-set model of the batched automaton against the documented relations, every case is replayed (also optimised) and validated. Pattern syntax itself (what 'x*', '*x', quotes, i mean) is checked on every string <= 3 (4) over the 13 syntax characters via into_identifier. Seeded: long and multi-byte strings, lists of 1-5 patterns, arrays.",
          "note": COMMON_NOTE + "Regexes outside the modelled sub-language (literals, ., .*, .*?, ^, $, Perl classes, bracket sets, + ? *) are not given a semantic oracle.", "technique": T},
- "C08": {"level": "TLC enumerates lists of 1..3 (thorough 5) members x seven member families (batched strings, mixed batch classes, case-mixed, numbers, booleans, nested mappings, regexes that become equal once their '.*' is stripped) x nine quantifier forms (key list, sequence, identifier list, sequence of matrix-shaped mappings) x thresholds 0..k+1 x complete and partial documents, checks the law 'quantified form = explicit form' in the language layer, and replays both writings as ONE case, not optimised and under optimised switch sets: TLC requires a single denotation per switch class and the count semantics. Seeded: lists up to 6 with subset expansion of of(n).",
+ "C08": {"level": "TLC enumerates lists of 1..3 (thorough 5) members x seven member families (batched strings, mixed batch classes, case-mixed, numbers, booleans, nested mappings, regexes that become equal once their '.*' is stripped) x nine quantifier forms (key list, sequence, identifier list, sequence of matrix-shaped mappings) x thresholds 0..k+1 x complete and partial documents, checks the law 'quantified form = explicit form' in the language layer, and replays both writings as ONE case, not optimised and under optimised switch sets: TLC requires a single denotation per switch class and the count semantics. Seeded: lists up to 6 with subset expansion of of(n), identifiers written as one multi-key mapping, overlapping needles, arrays with repeated matches and with non-text elements, lists of 63-70 members with repeated occurrences.",
          "note": COMMON_NOTE + "Lists with duplicate members are excluded ('distinct members' is ambiguous).", "technique": T},
- "C09": {"level": "Exact decimal digit arithmetic in TLA+ (TLC integers are 32-bit): TLC checks trichotomy, the unions >=,<=, NaN and the engine's representation-based comparison table over 64-bit boundary points; 257 (form, operator, constant) cases x 43 field values (i64::MIN..u64::MAX, signed zero, dyadic floats, 2^63 as float, NaN, infinities, numeric and odd strings, booleans, null, containers) are replayed; seeded random 64-bit values against random constants compared digit by digit, single values and list members.",
+ "C09": {"level": "Exact decimal digit arithmetic in TLA+ (TLC integers are 32-bit): TLC checks trichotomy, the unions >=,<=, NaN and the engine's representation-based comparison table over 64-bit boundary points; 257 (form, operator, constant) cases x 43 field values (i64::MIN..u64::MAX, signed zero, dyadic floats, 2^63 as float, NaN, infinities, numeric and odd strings, booleans, null, containers) are replayed; seeded random 64-bit values against random constants compared digit by digit, single values and list members; bare YAML constants above i64::MAX (float kind: soundness only), neighbouring doubles, bare numbers and non-canonical numeric texts under str(), number lists against texts and fractions, int() of texts at the i64 extremes, not(k) on comparisons against incomparable values; the static semantics (typ) decides which cast/value combinations load.",
          "note": COMMON_NOTE + "Floats are restricted to exactly representable short decimals; flt() of integers above 2^53 and str() of floats beyond 15 digits are left open.", "technique": T},
- "C10": {"level": "TLC enumerates every document shape to depth 1 (thorough 2) under a root {a, b} with position-labelled leaves x every well-formed path of <= 3 (2) segments over {a,b,a[0],a[1],b[0]} and checks the engine's cursor walk against descent; every (document, key) is then asked of Object::find / Document::find on four representations and the returned value compared structurally. A nested mapping over every array of <= 2 (3) elements (objects with each key good/bad/absent, scalars, empty arrays) is checked against 'some element satisfies it' (MC_Nest). Seeded: dotted/indexed keys and nested mappings through Rule::matches on documents with arrays of objects and null leaves; nested blocks on one field under all 17 switch sets.",
+ "C10": {"level": "TLC enumerates every document shape to depth 1 (thorough 2) under a root {a, b} with position-labelled leaves x every well-formed path of <= 3 (2) segments over {a,b,a[0],a[1],b[0]} and checks the engine's cursor walk against descent; every (document, key) is then asked of Object::find / Document::find on four representations and the returned value compared structurally; keys with an empty segment (a., .a, a..b), with a non-numeric index (a[], a[x]) or with a numeric NAME (a.0) are proved missing in the model and in the engine walk. A nested mapping over every array of <= 2 (3) elements (objects with each key good/bad/absent, scalars, empty arrays) is checked against 'some element satisfies it' (MC_Nest). Seeded: dotted/indexed keys and nested mappings through Rule::matches on documents with arrays of objects and null leaves; nested blocks on one field under all 17 switch sets.",
          "note": COMMON_NOTE + "Ill-formed keys (a[0][1], a..b) are checked for totality only.", "technique": T},
- "C11": {"level": "Every (rule, abstract document) of 600 (thorough 12k) seeded cases is matched through 8 representations (serde_yaml value and re-parsed text, serde_json value and re-parsed text, HashMap over std types i8..u64/f32/f64/Option/Vec/HashSet/nested maps, a hand-written Object with unsigned and with signed non-negative integers, a hand-written Document); TLC binds one denotation per (switch class, document) and rejects any disagreement. A third of the cases are numeric predicates over integer width boundaries (i8..u64) and over floats that are exact in f32 but long in decimal.",
+ "C11": {"level": "Every (rule, abstract document) of 600 (thorough 12k) seeded cases is matched through up to 10 representations (serde_yaml value and re-parsed text, serde_json value and re-parsed text, HashMap over std types i8..u64/f32/f64/Option/Vec/HashSet/nested maps, a hand-written Object with unsigned and with signed non-negative integers, a hand-written Document, a hand-written Object whose content is reachable only through its overridden find(), a flat-table Document of full dotted paths); TLC binds one denotation per (switch class, document) and rejects any disagreement. A third of the cases are numeric predicates over integer width boundaries (i8..u64) and over floats that are exact in f32 but long in decimal; flt() casts at the width boundaries; paths whose steps meet the other container (t.0 on an array, t[0] on an object).",
          "note": COMMON_NOTE + "NaN/inf cannot be carried by JSON and are skipped there.", "technique": T},
- "C12": {"level": "Per seeded case: each of 5 switch sets is optimised 4 times (printed expression must be identical - bound in the specification's `prints`), a second optimise() with other switches must be the identity (spec action ReOptimise), every document is matched from the main thread, from 4 free-running threads sharing one &Rule in different orders, and - for nested rules - from 16 threads that walk a hand-written document in LOCK STEP (every Object::get is a rendezvous: the schedule with maximal overlap); every case is executed again later in the same process in reverse order and once more in a second process in reverse order, every second case is the case-flag twin of its predecessor, and lists of 65-200 needles are matched in runs of different sizes; TLC requires every observation of a (switch class, document) to equal the bound denotation. The action property Pure (matching changes no rule state) is part of TauRule.",
+ "C12": {"level": "Per seeded case: each of 5 switch sets is optimised 4 times (printed expression must be identical - bound in the specification's `prints`), a second optimise() with other switches must be the identity (spec action ReOptimise), every document is matched from the main thread, from 4 free-running threads sharing one &Rule in different orders, and - for nested rules - from 16 threads that walk a hand-written document in LOCK STEP (every Object::get is a rendezvous: the schedule with maximal overlap); every case is executed again later in the same process in reverse order and once more in a second process in reverse order, every second case is the case-flag twin of its predecessor, lists of 65-200 needles are matched in runs of different sizes, quantified lists meet mistyped fields, or-groups hold several batches of equal size, and three rules with six 120-needle lists each are optimised 96 times in one process (prints compared by length and hash); TLC requires every observation of a (switch class, document) to equal the bound denotation. The action property Pure (matching changes no rule state) is part of TauRule.",
          "note": COMMON_NOTE + "Schedules of the real threads are sampled (free-running) or forced (lock step), not enumerated.", "technique": T},
- "C13": {"level": "validate() is specified as a function of the bound denotation of the same switch class (TauRule!ValidateOk): ok iff no true_positives example fails and no true_negatives example matches, else a Validation error naming exactly the failing examples (markers planted in the examples; unmarked examples let the same document stand in both lists or twice in one), err (not panic) for a non-mapping example. 800 (15k) seeded cases, unoptimised and two optimised forms.",
+ "C13": {"level": "validate() is specified as a function of the bound denotation of the same switch class (TauRule!ValidateOk): ok iff no true_positives example fails and no true_negatives example matches, else a Validation error naming exactly the failing examples (markers planted in the examples; unmarked examples let the same document stand in both lists or twice in one), err (not panic) for a non-mapping example (text, number, null, lists incl. the empty one), flat dotted-key spellings of nested documents as examples. 800 (15k) seeded cases, unoptimised and two optimised forms.",
          "note": COMMON_NOTE, "technique": T},
- "C14": {"level": "Each object (unoptimised and optimised) is serialised, reloaded through from_str and from_value; the reloaded rule's detection and examples must equal the rule AS WRITTEN (canonical YAML comparison; identifier names differing only in case, quoting-sensitive strings) and its verdicts are held against the denotation of the not-optimised class; from_str/from_value must agree on load outcome.",
+ "C14": {"level": "Each object (unoptimised and optimised) is serialised, reloaded through from_str and from_value; the reloaded rule's detection and examples must equal the rule AS WRITTEN (canonical YAML comparison; identifier names differing only in case, quoting-sensitive strings) and its verdicts are held against the denotation of the not-optimised class; from_str/from_value must agree on load outcome; matching the reloaded rule must not panic.",
          "note": COMMON_NOTE + "Identifier order in the serialised text is HashMap order and is ignored.", "technique": T},
- "C15": {"level": "The harness is built twice (default and feature ignore_case); both run the same seeded cases in which every string pattern is case-insensitive (default build writes the i prefix, ignore_case build does not); the merged trace is validated by TLC against one denotation and the case-insensitive language-layer oracle, not optimised and optimised. The pattern-text model is TLC-checked with IcBuild = TRUE, and every pattern string of length <= 3 over the 13 syntax characters is put through into_identifier in BOTH builds, each result judged with the build that produced it (kind, case flag, argument, regex source text).",
+ "C15": {"level": "The harness is built twice (default and feature ignore_case); both run the same seeded cases in which every string pattern is case-insensitive (default build writes the i prefix, ignore_case build does not); the merged trace is validated by TLC against one denotation and the case-insensitive language-layer oracle, not optimised and optimised. The pattern-text model is TLC-checked with IcBuild = TRUE, and every pattern string of length <= 3 over the 13 syntax characters is put through into_identifier in BOTH builds, each result judged with the build that produced it (kind, case flag, argument, regex source text). Field names keep their case in both builds (documents with a case-swapped name), and str(a) == str(b) in the condition stays exact.",
          "note": COMMON_NOTE, "technique": T},
- "C16": {"level": "Every match is also made through a recording document; each find(key) on the root or a nested object must be a key the rule writes for that position (spec/TauKeys.tla: blocks and positions), never a synthetic matrix key; each document comes with two variants that differ only in fields no rule addresses (including one-character keys \\u{0}.., names that occur only as later segments of dotted keys, and extra members inside nested objects) and must share its denotation. Four switch states per case.",
+ "C16": {"level": "Every match is also made through a recording document; each find(key) on the root or a nested object must be a key the rule writes for that position (spec/TauKeys.tla: blocks and positions), never a synthetic matrix key; each document comes with two variants that differ only in fields no rule addresses (including one-character keys \\u{0}.., names that occur only as later segments of dotted keys, extra members inside nested objects, #text / value members of objects that stand where a text is expected) and must share its denotation. Four switch states per case.",
          "note": COMMON_NOTE + "The recording document resolves paths with its own reference walk; number and order of calls are not constrained.", "technique": T},
  "C17": {"level": "TLC checks on every vector and every permutation (arity <= 3, thorough 4) that the solver loops and the language layer are order-free for TRUE, and emits every commutative C06 case with its reversed writing as an alternative source; seeded random rules get three random reorderings of and/or operands, mapping entries, sequence entries and list members at positions not under a negation or none-of; TLC requires one denotation per case, not optimised and under three optimised switch sets. Unbounded part (thorough tier): spec/TauFold.tla - the verdict of each group loop depends only on order-free quantities (number of true operands, any false, any missing), an inductive invariant discharged by Apalache for every arity.",
          "note": COMMON_NOTE, "technique": T_FOLD},
